@@ -14,7 +14,9 @@ omits the definition, and every theorem about it stops compiling):
    `apply_new_scaling`;
  * whether `LasData.__setattr__` (x, y, z) and the `LasData.xyz` setter make the record take the header's scale/offset
    arrays before storing, and the axis order of the xyz setter;
- * the limits of the integer type the coordinates are stored in (running module).
+ * the limits of the integer type the coordinates are stored in (running module);
+ * the binary operators of the scaled views (`ArrayView.__add__/__sub__/__mul__/__truediv__`) as arithmetic terms, and that no
+   in-place operator is defined on them (`las.x += d` is `las.x = las.x + d`).
 """
 import ast
 import importlib
@@ -90,6 +92,82 @@ def flat(stmts):
     return out
 
 
+def const_seq(e):
+    """a tuple / list display of constants -> their values, else None"""
+    if isinstance(e, (ast.Tuple, ast.List)) and all(isinstance(x, ast.Constant) for x in e.elts):
+        return [x.value for x in e.elts]
+    return None
+
+
+class _Subst(ast.NodeTransformer):
+    """loop variables replaced by the constants they take; then `getattr(obj, 'name')` is `obj.name` and a constant index into a
+    display of constants is the constant"""
+
+    def __init__(self, env):
+        self.env = env
+
+    def visit_Name(self, node):
+        if isinstance(node.ctx, ast.Load) and node.id in self.env:
+            return ast.copy_location(ast.Constant(self.env[node.id]), node)
+        if node.id in self.env:
+            raise Untranslatable(f"comprehension variable {node.id} is assigned inside the element")
+        return node
+
+    def visit_Call(self, node):
+        self.generic_visit(node)
+        if (isinstance(node.func, ast.Name) and node.func.id == "getattr" and len(node.args) == 2 and not node.keywords
+                and isinstance(node.args[1], ast.Constant) and isinstance(node.args[1].value, str) and node.args[1].value.isidentifier()):
+            return ast.copy_location(ast.Attribute(value=node.args[0], attr=node.args[1].value, ctx=ast.Load()), node)
+        return node
+
+    def visit_Subscript(self, node):
+        self.generic_visit(node)
+        seq = const_seq(node.value)
+        if seq is not None and isinstance(node.slice, ast.Constant) and isinstance(node.slice.value, int) and 0 <= node.slice.value < len(seq):
+            return ast.copy_location(ast.Constant(seq[node.slice.value]), node)
+        return node
+
+
+def unroll(comp):
+    """the elements of a list comprehension with ONE generator over constants - a display of constants, enumerate(display),
+    zip(display, ...), range(n) - and no condition, written out (the element expression with the loop variables substituted).
+    Anything else is not understood."""
+    import copy
+    if not (isinstance(comp, ast.ListComp) and len(comp.generators) == 1):
+        raise Untranslatable(f"not a comprehension with one generator: {ast.unparse(comp)[:80]}")
+    g = comp.generators[0]
+    if g.ifs or g.is_async:
+        raise Untranslatable("comprehension with a condition")
+    it = g.iter
+    rows = None
+    seq = const_seq(it)
+    if seq is not None:
+        rows = [(v,) for v in seq]
+    elif isinstance(it, ast.Call) and isinstance(it.func, ast.Name) and not it.keywords:
+        args = [const_seq(a) for a in it.args]
+        if it.func.id == "enumerate" and len(args) == 1 and args[0] is not None:
+            rows = list(enumerate(args[0]))
+        elif it.func.id == "zip" and args and all(a is not None for a in args) and len({len(a) for a in args}) == 1:
+            rows = list(zip(*args))
+        elif it.func.id == "range" and len(it.args) == 1 and isinstance(it.args[0], ast.Constant) and isinstance(it.args[0].value, int):
+            rows = [(i,) for i in range(it.args[0].value)]
+    if rows is None or len(rows) > 16:
+        raise Untranslatable(f"comprehension over {ast.unparse(it)[:60]}")
+    if isinstance(g.target, ast.Name):
+        names = [g.target.id]
+        rows = [r if len(r) == 1 else (r,) for r in rows]
+    elif isinstance(g.target, ast.Tuple) and all(isinstance(e, ast.Name) for e in g.target.elts):
+        names = [e.id for e in g.target.elts]
+    else:
+        raise Untranslatable(f"comprehension target {ast.unparse(g.target)}")
+    out = []
+    for r in rows:
+        if len(r) != len(names) or not all(isinstance(v, (int, str)) for v in r):
+            raise Untranslatable("comprehension rows do not match its target")
+        out.append(ast.fix_missing_locations(_Subst(dict(zip(names, r))).visit(copy.deepcopy(comp.elt))))
+    return out
+
+
 def gen_scaling(repo):
     o = py2v.Out("laspy/point/dims.py (ScaledArrayView), laspy/point/record.py (scale/unscale_dimension, apply_new_scaling, "
                  "ScaleAwarePointRecord.__getitem__), numpy limits of the running module")
@@ -150,8 +228,11 @@ def gen_scaling(repo):
         stmts = flat(fn.body)
         lst = None
         for s in stmts:
-            if isinstance(s, ast.Assign) and ast.unparse(s.targets[0]) == "new_coords" and isinstance(s.value, ast.List):
-                lst = s.value.elts
+            if isinstance(s, ast.Assign) and ast.unparse(s.targets[0]) == "new_coords":
+                if isinstance(s.value, ast.List):
+                    lst = s.value.elts
+                elif isinstance(s.value, ast.ListComp):     # the three calls produced by a comprehension over constants
+                    lst = unroll(s.value)
         if lst is None or len(lst) != 3:
             raise Untranslatable("apply_new_scaling: new_coords is not a list of three")
         rows = []
@@ -186,6 +267,50 @@ def gen_scaling(repo):
         txt += "Definition gen_rescale_axes : list (nat * nat * nat) := [" + "; ".join(f"({a}%nat, {i}%nat, {j}%nat)" for a, i, j in rows) + "].\n"
         txt += "Definition gen_rescale_unscaled := gen_unscale_dimension.\n"
         return txt
+
+    INPLACE = ("__iadd__", "__isub__", "__imul__", "__itruediv__", "__ifloordiv__", "__imod__", "__ipow__", "__imatmul__",
+               "__iand__", "__ior__", "__ixor__", "__ilshift__", "__irshift__")
+    BINOPS = (("__add__", "gen_view_add"), ("__sub__", "gen_view_sub"), ("__mul__", "gen_view_mul"), ("__truediv__", "gen_view_truediv"))
+
+    def class_names(cls):
+        """names bound in a class body: methods and plain assignments"""
+        out = set()
+        for s in cls.body:
+            if isinstance(s, (ast.FunctionDef, ast.AsyncFunctionDef)):
+                out.add(s.name)
+            elif isinstance(s, ast.Assign):
+                out.update(ast.unparse(t) for t in s.targets)
+            elif isinstance(s, ast.AnnAssign):
+                out.add(ast.unparse(s.target))
+        return out
+
+    def view_binops():
+        """`las.x += d` (and -=, *=, /=): neither ArrayView nor ScaledArrayView defines an in-place operator, so Python evaluates
+        the binary operator of the view - `np.array(self) <op> other`, plain floating point on the presented coordinates - and
+        assigns the result back through the route the view was obtained by (whose __setitem__ makes the range test)"""
+        base = py2v.find_class(dims, "ArrayView")
+        view = py2v.find_class(dims, "ScaledArrayView")
+        if [ast.unparse(b) for b in view.bases] != ["ArrayView"]:
+            raise Untranslatable(f"ScaledArrayView bases {[ast.unparse(b) for b in view.bases]}")
+        if [ast.unparse(b) for b in base.bases] not in (["abc.ABC"], ["ABC"]):
+            raise Untranslatable(f"ArrayView bases {[ast.unparse(b) for b in base.bases]}")
+        for cls in (base, view):
+            bad = sorted(class_names(cls) & set(INPLACE))
+            if bad:
+                raise Untranslatable(f"{cls.name} defines the in-place operator(s) {bad}")
+            if class_names(cls) & {"__getattr__", "__getattribute__"}:
+                raise Untranslatable(f"{cls.name} defines __getattribute__/__getattr__")
+        txt = ""
+        for py, g in BINOPS:
+            if py in class_names(view):
+                raise Untranslatable(f"ScaledArrayView overrides {py}")
+            fn = py2v.find_func(base, py)
+            if [a.arg for a in fn.args.args] != ["self", "other"]:
+                raise Untranslatable(f"ArrayView.{py} parameters")
+            term = arith(single_return(fn), {"self": "value", "other": "other"})
+            txt += f"(* ArrayView.{py}: {ast.unparse(single_return(fn))} *)\nDefinition {g} (value other : T) := {term}.\n"
+        return txt
+    o.add("view_binops", view_binops)
 
     def guard_of_rescale(stmts):
         for i, s in enumerate(stmts):
@@ -261,6 +386,12 @@ def gen_scaling(repo):
         return txt
     o.add("view_axes", view_axes)
 
+    def view_inplace():
+        view_binops()       # raises when an in-place operator is defined or a binary operator has another shape
+        return ("(* neither ArrayView nor ScaledArrayView defines __iadd__ / __isub__ / __imul__ / __itruediv__ ...: an augmented assignment "
+                "on a scaled view is the binary operator followed by the assignment *)\nDefinition gen_view_inplace_falls_back : bool := true.\n")
+    o.add("view_inplace", view_inplace)
+
     lasdata = py2v.parse(repo, "laspy/lasdata.py")
     SYNC = ["self.points.offsets = self.header.offsets", "self.points.scales = self.header.scales"]
 
@@ -270,12 +401,14 @@ def gen_scaling(repo):
         store = [i for i, s in enumerate(texts) if store_pred(s)]
         if len(store) != 1:
             raise Untranslatable(f"{what}: the coordinate store was not found")
-        found = [x in texts[:store[0]] for x in SYNC]
-        if all(found):
+        before = texts[:store[0]]
+        if sorted(before) == sorted(SYNC):
             return "true"
-        if not any(found) and not any(x in texts for x in SYNC):
+        if not before and not any(x in texts for x in SYNC):
             return "false"
-        raise Untranslatable(f"{what}: only part of the scaling is taken from the header")
+        # anything else before the store (a call of a helper, another assignment to the record's scaling, one of the two statements
+        # only) is not understood as written: retried on the normal form (new helpers inlined), else the definition is omitted
+        raise Untranslatable(f"{what}: the statements before the coordinate store are not exactly the two that take the header's scaling: {before}")
 
     def setattr_syncs():
         cls = py2v.find_class(lasdata, "LasData")
